@@ -206,7 +206,7 @@ func init() {
 		Technique: "deterministic simulation: structure predicate as an invariant on every simulated wordlist generation; boundary-biased choice walks (shipped and synthetic lists, forced first/last indices, Length 1, empty and functional separators)",
 		Rule:      "case = one WLRecipe.Generate call checked against the structure predicate; distinct by hash of (recipe, returned token sequence); non-trivial = Length >= 2 or a capitalising scheme",
 		Assumptions: []string{"title-casing is strings.Title", "a separator function's values for the gaps are the values it returned during the call (recorded by a wrapper), in any order"},
-		Episodes:    map[string]int{"quick": 1600, "thorough": 60000},
+		Episodes:    map[string]int{"quick": 12000, "thorough": 160000},
 		TwiceEvery:  9,
 		Real:        []string{"WLRecipe.Generate/Entropy", "NewWordList", "Password.String/Tokens", "Tokens.Atoms/Separators", "separator presets / NewSFFunction"},
 		Simulated:   []string{"crypto/rand.Reader (choice tape, boundary-biased)", "word/alphabet index order (H2/H3)", "NewWordList visit order (H4)"},
@@ -219,6 +219,12 @@ func init() {
 			}
 			if r.Chance(0.2) {
 				s.WL.Length = 1
+			}
+			if r.Chance(0.1) {
+				// long passphrases: positions beyond 64 words
+				s.WL.Length = pick(r, []int{63, 64, 65, 66, 70, 100, 129})
+				s.WL.Cap = pick(r, []string{"all", "one", "one", "random", "first"})
+				s.N = 4
 			}
 			if r.Chance(0.12) {
 				s.Shipped = pick(r, []string{"words", "syllables"})
@@ -330,6 +336,21 @@ func runC05(c *Ctx, si interface{}) {
 		}
 	}
 	reportedEmpty := false
+	type keptPwd struct {
+		p    *spg.Password
+		view *PwView
+	}
+	var retained []keptPwd
+	recheck := func(after string) bool {
+		for i, k := range retained {
+			now := viewPw(k.p)
+			if now.key() != k.view.key() || now.S != k.view.S || now.Entropy != k.view.Entropy {
+				c.Violate("returned-password-changed", "", "%s: password %d was %v when it was returned and reads %v after %s", cfg, i, k.view.Tokens, now.Tokens, after)
+				return false
+			}
+		}
+		return true
+	}
 	for k := 0; k < s.N; k++ {
 		ts := s.Tape
 		ts.Seed = mix(s.Tape.Seed, k)
@@ -372,8 +393,21 @@ func runC05(c *Ctx, si interface{}) {
 			c.Violate("structure", key, "%s: %s", cfg, why)
 			return
 		}
-		if k == 0 {
-			c.Sample(map[string]interface{}{"recipe": cfg.String(), "shipped": s.Shipped, "tokens": res.Pw.Tokens})
+		retained = append(retained, keptPwd{res.P, res.Pw})
+		if !recheck("a later Generate of the same recipe") {
+			return
 		}
+		if k == 0 {
+			c.Sample(map[string]interface{}{"recipe": cfg.String(), "shipped": s.Shipped, "tokens": brief(res.Pw.Tokens)})
+		}
+	}
+	// a different recipe over the same list must not disturb passwords handed out earlier
+	if len(retained) > 0 && b.List != nil {
+		other := spg.NewWLRecipe(1+int(s.Tape.Seed%3), b.List)
+		other.SeparatorChar = "+"
+		other.Capitalize = spg.CSAll
+		genOp(NewTape(TapeSpec{Mode: "choice", Seed: mix(s.Tape.Seed, "other"), Default: "random"}), other)
+		c.Probe("earlier_passwords_reinspected_after_other_recipe", 1)
+		recheck("a Generate of another recipe over the same word list")
 	}
 }
